@@ -8,7 +8,8 @@
 //
 // Environment: VERIF_SEED, VERIF_N (number of generated cases), VERIF_OUT (trace path), VERIF_OPS (file with
 // cases given as gops, separated by lines "case ..."; replaces the generator), VERIF_CORPUS (directory with such
-// files, replayed before the generated cases), VERIF_MODE (plain|nested: whether generated callbacks re-enter Express).
+// files, replayed before the generated cases), VERIF_MODE (plain|nested|long: whether generated callbacks re-enter
+// Express; long = nested with 40-140 operations per history).
 package engine
 
 import (
@@ -712,6 +713,7 @@ func hexDecode(s string) ([]byte, error) {
 type genr struct {
 	r      *rand.Rand
 	nested bool
+	long   bool
 }
 
 func (g *genr) pick(xs []int) int { return xs[g.r.Intn(len(xs))] }
@@ -737,6 +739,9 @@ func (g *genr) genCase() []gop {
 	alpha := 1 + g.r.Intn(3)
 	depth := 1 + g.r.Intn(4)
 	nops := 4 + g.r.Intn(22)
+	if g.long {
+		nops = 40 + g.r.Intn(100)
+	}
 	var ops []gop
 	var expressed [][]int // names used so far (for related Data/Nack names)
 	type dref struct {
@@ -1023,7 +1028,8 @@ func TestTrace(t *testing.T) {
 				titles = append(titles, ns...)
 			}
 		}
-		g := &genr{r: rand.New(rand.NewSource(seed)), nested: os.Getenv("VERIF_MODE") == "nested"}
+		mode := os.Getenv("VERIF_MODE")
+		g := &genr{r: rand.New(rand.NewSource(seed)), nested: mode == "nested" || mode == "long", long: mode == "long"}
 		for i := 0; i < n; i++ {
 			cases = append(cases, g.genCase())
 			titles = append(titles, fmt.Sprintf("gen-%d-%d", seed, i))
